@@ -16,7 +16,11 @@ PROP = {
                    "every run with the real static functions (exhaustive sweep of all indexes < 2^22, thorough 2^26, x L0 0..16 x both "
                    "sizings, plus an in-order-fill oracle up to 2^26 / 2^32 and boundary points up to 2^64) and with real SegmentedArrays "
                    "whose element addresses are re-checked after every operation."
-                   ' GetSegItemIndexes / GetIndex / GetItemCount and the two log helpers of both sizings are additionally TRANSLATED from the header text on every run (tools/translate.py) and proved equal to the machine-level model; the round trip is proved for the generated definitions (C16_roundtrip_translated_*).'),
+                   ' GetSegItemIndexes / GetIndex / GetItemCount and the two log helpers of both sizings are additionally TRANSLATED from the header text on every run (tools/translate.py) and proved equal to the machine-level model; the round trip is proved for the generated definitions (C16_roundtrip_translated_*).'
+                   ' Area Misc of the translator (tools/trspecs/Misc.py): UIntMath::Log2 and both de Bruijn pvLog2 variants (tables, smear lines, multiplier, shift) '
+                   'are TRANSLATED from Utility.h on every run and proved equal to the machine-word models, hence to floor(log2) (C16_log2_translated, '
+                   'C16_log2_32_translated); the translated log helpers of the sqrt sizing are shown to call that translated Log2 '
+                   '(C16_log_helpers_use_translated_log2), so no hand-written Log2 remains under the translated round trip.'),
     "level_note": ("Trusted: Lean kernel, the three standard axioms, extractor, correspondence harness (g++, -fno-access-control). Modelled not "
                    "verified: that `mSegments[s] + o` is the address of slot o of block s (pointer arithmetic), the memory manager returning "
                    "distinct live blocks (allocation ids), element construction/destruction. Shifts by 64 or more (L0 >= 64, or "
@@ -52,6 +56,10 @@ PROP = {
         "Momo.Seg.C16_segment_count_for_capacity_is_least",
         "Momo.Seg.C16_roundtrip_translated_sqrt",
         "Momo.Seg.C16_roundtrip_translated_cnst",
+        "Momo.Seg.C16_log2_translated",
+        "Momo.Seg.C16_log2_32_translated",
+        "Momo.Seg.C16_log_helpers_use_translated_log2",
+        "Momo.Seg.C16_itemCount_translated_cnst",
     ],
     # one source, eight executables (they compile and run in parallel): an ASan+UBSan build that runs every container
     # configuration, and 7 parts; part k sweeps the k-th seventh of the index ranges and runs every 7th boundary /
